@@ -23,6 +23,7 @@ RULE = (
     "QUAD+TRI, PRISM6/HEXA8/TETRA4), any split x AT1/AT2 x 3 solvers, 2-10 displacement-controlled steps "
     "(tension/compression, shear, biaxial) with arbitrary amplitudes on a grid; non-trivial = an unloading "
     "step after damage > 0. distinct = sha1 of the serialised case."
+    ' strain_containers: enumerated split x dimension x container of the same integer-valued strain states (non-trivial = every accepted container).'
 )
 ASSUMPTIONS = [
     "numpy.linalg.eigh (LAPACK) is the trusted spectral decomposition; eps+ = sum <l_i>+ n_i n_i^T",
